@@ -60,6 +60,9 @@ CHECKS = {
  "C19": dict(engine="relay", tech="TLA+ spec (Relay adaptation lock) model-checked by TLC; recorded executions with concurrent unsolicited updates validated by TLC",
    text="CallbackExclusive is model-checked; in recorded runs the update callback must run only while the adaptation lock is held by that update (never overlapping a request, an activation or another update), exactly once per call with the payload sent, and the plugin must get back exactly the callback's failed list or error. A stub that was never started must answer ErrNoService at once (checked by the driver's preamble event).",
    ref="5/C19", note="Same trusted base as C06."),
+ "C18": dict(engine="launch", tech="TLA+ spec (Launch: launchability, environment, configuration precedence, invocation order, reaping) enumerated by TLC; a probe plugin on the real stub launched by a real Adaptation from materialised plugin directories; reports validated by TLC (Trace_Launch)",
+   text="Launch.tla defines which directory entries are launched, with which environment, socket and configuration, in which order they are invoked and that nothing launched outlives Stop; TLC enumerates directory contents (two and three probe plugins in every combination of healthy / exits at once / never registers / dies later, among non-executables and subdirectories, equal indices, empty directory) and every combination of drop-in files for two plugins. Each is materialised with copies of a probe plugin built on the real stub; the probe's report of its environment, /proc/self/fd, configuration, the order of invocations and the process table after Stop must equal the specification's expectation.",
+   ref="5/C18", note="Trusted base: TLC; the probe plugin (harness/cmd/probe). A zombie counts as not alive; anonymous inodes and pipes of the child's own Go runtime are ignored in the descriptor check; badly named executables, symlinks and special files are not generated."),
  "C20": dict(engine="inject", tech="TLA+ spec (Inject: annotation scoping and precedence, rlimit normalisation, all-or-nothing) checked and enumerated by TLC; the built sample plugin binaries run as pre-installed plugins of a real Adaptation; results validated by TLC (Trace_Inject)",
    text="Inject.tla defines which annotation is selected for a container (injector: container, then pod, then bare key; adjuster: container only) and the resulting adjustment; TLC checks NeverForeign and AllOrNothing on every generated scenario and emits them: per key every subset of {own container, a container whose name is a prefix/extension, pod, bare}, malformed payloads, unknown rlimit types and hard<soft at selected and non-selected scopes, all keys at once in every scope combination, names c1/c1x/a.b. The two plugins are built from /repo/plugins, launched as pre-installed plugins and exercised through Adaptation.CreateContainer; the returned adjustment or failure must equal the specification's.",
    ref="5/C20", note="Trusted base: TLC; the payload table (YAML texts in harness/injdrv, meanings in Inject.tla); harness/abs projection."),
@@ -86,7 +89,7 @@ for p in props:
 na = []
 for p in props:
     if p not in CHECKS:
-        na.append({"property_id": p, "reason": NA.get(p, "check not built yet (work in progress, see DESIGN.md section 10)")})
+        na.append({"property_id": p, "reason": NA.get(p, "not claimed")})
 
 hooks_commits = []
 hp = os.path.join(HERE, "hooks_commits.txt")
@@ -108,6 +111,8 @@ m = {
     "kind_free_text": "TLC model checking (tla/Mux), fault placements (tla/Gen_Mux), recording driver with child isolation (harness/muxdrv, hooks in mux.go), TLC trace validation (tla/Trace_Mux)"},
    {"name": "convert", "path": "/verif/lib/convert.py", "serves_properties": ["C14"],
     "kind_free_text": "TLC (tla/Convert) + pkg/api functions executed by harness/convdrv + TLC validation (tla/Trace_Convert)"},
+   {"name": "launch", "path": "/verif/lib/launch.py", "serves_properties": ["C18"],
+    "kind_free_text": "TLC (tla/Launch) + probe plugin built per run and launched by a real Adaptation (harness/launchdrv, harness/cmd/probe) + TLC validation (tla/Trace_Launch)"},
    {"name": "inject", "path": "/verif/lib/inject.py", "serves_properties": ["C20"],
     "kind_free_text": "TLC (tla/Inject) + sample plugin binaries built per run and launched by a real Adaptation (harness/injdrv) + TLC validation (tla/Trace_Inject)"},
    {"name": "dispatch", "path": "/verif/lib/dispatch.py", "serves_properties": ["C15"],
